@@ -193,7 +193,7 @@ def add_case(out, rng, mode, zones, kind):
 
 def cases(rng, tier):
     out = []
-    n = 450 if tier == "quick" else 30000
+    n = 450 if tier == "quick" else 12000
     for gen, share in ((gen_flush, 5), (gen_runs, 2), (gen_explicit, 3)):
         r = rng.fork(gen.__name__)
         for _ in range(n * share // 10):
